@@ -133,6 +133,15 @@ def map_key(p, key, maps, q):
 
 
 SCHEMES = {
+    # a worker / another cumulative worker whose name STARTS WITH the name of a cumulative worker (M1 / M10 / M1_helper)
+    "prefix_of_cumulative": lambda kind, i: {"task": "job" + str(i), "worker": ["M1_helper", "M10", "M1x"][(i - 1) % 3] + ("" if i <= 3 else str(i)),
+                                             "cumul": "M1" + "0" * (i - 1), "select": "S" + str(i), "con": "c" + str(i),
+                                             "buffer": "b" + str(i), "ind": "i" + str(i)}[kind],
+    # names that read as numbers
+    "number_like": lambda kind, i: {"task": ["12", "1_2", "007", "1e3", "3.5"][(i - 1) % 5] + ("" if i <= 5 else "_" + str(i)),
+                                    "worker": ["7", "08", "1_0"][(i - 1) % 3] + ("" if i <= 3 else "_" + str(i)),
+                                    "cumul": "9" + str(i), "select": "5" + str(i), "con": "4" + str(i),
+                                    "buffer": "6" + str(i), "ind": "3" + str(i)}[kind],
     # names that are concatenations of other names with the separators the library itself uses ("_"): unique per kind and
     # across kinds, yet equal to what a naive "<resource>_<task>" / "<task>_<resource>" composition would produce
     "concatenations": lambda kind, i: {"task": ["A", "W_A", "B", "A_W"][(i - 1) % 4] + ("" if i <= 4 else str(i)),
